@@ -158,3 +158,66 @@ Proof.
     destruct (branch_offset addr t2 (-16777216) 16777215 (mkAst [AConst v] 1)) as [o s| | |]; try discriminate.
     intros H1 H2. inversion H1; inversion H2; subst. reflexivity.
 Qed.
+
+(* ------------------------------------------------------------------ a deferral comes from an operand *)
+Lemma arity_st n st v st' : arity n st = COk v st' -> st' = st.
+Proof. unfold arity. split_goal; intros H; inversion H; reflexivity. Qed.
+Lemma c_register_st q st v st' : c_register q st = COk v st' -> st' = st.
+Proof. unfold c_register. split_goal; intros H; inversion H; reflexivity. Qed.
+Lemma c_sysreg_st q st v st' : c_sysreg q st = COk v st' -> st' = st.
+Proof. unfold c_sysreg. split_goal; intros H; inversion H; reflexivity. Qed.
+Lemma c_identifier_st q st v st' : c_identifier q st = COk v st' -> st' = st.
+Proof. unfold c_identifier. split_goal; intros H; inversion H; reflexivity. Qed.
+Lemma c_regset_st q st v st' : c_regset q st = COk v st' -> st' = st.
+Proof. unfold c_regset. split_goal; intros H; inversion H; reflexivity. Qed.
+
+Lemma arity_nd n st c s : arity n st <> CDefer c s. Proof. unfold arity. split_goal; discriminate. Qed.
+Lemma c_register_nd q st c s : c_register q st <> CDefer c s. Proof. unfold c_register. split_goal; discriminate. Qed.
+Lemma c_sysreg_nd q st c s : c_sysreg q st <> CDefer c s. Proof. unfold c_sysreg. split_goal; discriminate. Qed.
+Lemma c_identifier_nd q st c s : c_identifier q st <> CDefer c s. Proof. unfold c_identifier. split_goal; discriminate. Qed.
+Lemma c_regset_nd q st c s : c_regset q st <> CDefer c s. Proof. unfold c_regset. split_goal; discriminate. Qed.
+Lemma lit_offset_nd a t st c s : lit_offset a t st <> CDefer c s. Proof. unfold lit_offset. split_goal; discriminate. Qed.
+
+Definition defers (ev : evaluator) (args : list arg) : Prop :=
+  exists x a' s, In x args /\ ev x = (a', s) /\ s <> SComplete /\ s <> SEvalError.
+
+Lemma eval_at_defer ev l pos st c s : eval_at ev l pos st = CDefer c s -> defers ev (a_args st).
+Proof.
+  unfold eval_at. destruct (nth_error (a_args st) pos) as [x|] eqn:Nx; [|discriminate].
+  destruct (Nat.leb (a_done st) pos); [|discriminate]. destruct (ev x) as [a' s0] eqn:Ex.
+  intros H. exists x, a', s0. split; [eapply nth_error_In; eauto|]. split; [exact Ex|].
+  destruct s0; try discriminate H; split; discriminate.
+Qed.
+
+Ltac defer_loop :=
+  repeat (cbv beta iota in *;
+    match goal with
+    | H : match ?X with _ => _ end = CDefer _ _ |- _ => destruct X eqn:?; try discriminate H
+    end).
+
+Ltac st_norm :=
+  repeat match goal with
+  | Hq : arity _ _ = COk _ _ |- _ => apply arity_st in Hq; subst
+  | Hq : c_register _ _ = COk _ _ |- _ => apply c_register_st in Hq; subst
+  | Hq : c_sysreg _ _ = COk _ _ |- _ => apply c_sysreg_st in Hq; subst
+  | Hq : c_identifier _ _ = COk _ _ |- _ => apply c_identifier_st in Hq; subst
+  | Hq : c_regset _ _ = COk _ _ |- _ => apply c_regset_st in Hq; subst
+  end.
+
+Ltac nd_close :=
+  match goal with
+  | Hq : arity _ _ = CDefer _ _ |- _ => exfalso; exact (arity_nd _ _ _ _ Hq)
+  | Hq : c_register _ _ = CDefer _ _ |- _ => exfalso; exact (c_register_nd _ _ _ _ Hq)
+  | Hq : c_sysreg _ _ = CDefer _ _ |- _ => exfalso; exact (c_sysreg_nd _ _ _ _ Hq)
+  | Hq : c_identifier _ _ = CDefer _ _ |- _ => exfalso; exact (c_identifier_nd _ _ _ _ Hq)
+  | Hq : c_regset _ _ = CDefer _ _ |- _ => exfalso; exact (c_regset_nd _ _ _ _ Hq)
+  | Hq : lit_offset _ _ _ = CDefer _ _ |- _ => exfalso; exact (lit_offset_nd _ _ _ _ _ Hq)
+  | Hq : branch_offset _ _ _ _ _ = CDefer _ _ |- _ => exfalso; exact (branch_offset_nodefer _ _ _ _ _ _ _ Hq)
+  | Hq : eval_at _ _ _ _ = CDefer _ _ |- _ => st_norm; apply eval_at_defer in Hq; exact Hq
+  end.
+
+Lemma assemble_args_defer ev l addr t args c a1 :
+  assemble_args ev l addr t (mkAst args 0) = CDefer c a1 -> defers ev args.
+Proof.
+  destruct t; open_args; intros H; defer_loop; cbv beta iota in *; try discriminate H; nd_close.
+Qed.
